@@ -77,11 +77,11 @@ def main():
         lines = r.stdout.strip().splitlines()
         rec['steps'].append({'suite_with_change': 'all baseline-stable tests pass' if r.returncode == 0 else 'SOME STABLE TESTS FAIL', 'tail': lines[-6:]})
         ok = ok and r.returncode == 0
-    clean()
     rec['verified'] = ok
     alarms = None
     if ok:
-        r = subprocess.run([sys.executable, os.path.join(V, 'tools', 'seedcheck.py'), os.path.join(out, name + '.patch.diff')], capture_output=True, text=True)
+        # the checks run against the patched scratch tree (RIP_REPO), /repo is not touched
+        r = subprocess.run([sys.executable, os.path.join(V, 'tools', 'seedcheck.py'), '--tree', WT], capture_output=True, text=True)
         rec['checks_output'] = [l for l in r.stdout.splitlines() if l.strip()][-40:]
         m = re.search(r'SUMMARY \S+ (.*)$', r.stdout, re.M)
         alarms = m.group(1) if m else '?'
@@ -96,6 +96,7 @@ def main():
                                    'suite': 'tools/suite.py --fast on the patched tree (all of BASELINE.json stable_pass must pass)'},
                     'checks_that_alarm': alarms, 'checks_output': rec.get('checks_output')}
         json.dump(meta_out, open(os.path.join(dst, 'meta.json'), 'w'), indent=1)
+    clean()
     print(json.dumps({k: rec[k] for k in ('property', 'name', 'verified')}), 'alarms:', alarms)
     for s in rec['steps']:
         print('  ', json.dumps(s)[:300])
